@@ -167,6 +167,20 @@ class ImpR(Imp):
         raise Untranslatable('loop target %s over %s' % (ast.unparse(target), elem_t))
 
     # ------------------------------------------------------------ statements
+    def only_logging(self, stmts):
+        """assignments to names, logging calls and nested conditionals of the same kind: no effect beyond the local names"""
+        for s in stmts:
+            if isinstance(s, ast.Assign) and all(isinstance(t, ast.Name) for t in s.targets):
+                continue
+            if isinstance(s, ast.Expr) and isinstance(s.value, ast.Call) and ast.unparse(s.value.func).startswith(self.spec.skip):
+                continue
+            if isinstance(s, ast.Expr) and isinstance(s.value, ast.Constant):
+                continue
+            if isinstance(s, ast.If) and self.only_logging(list(s.body) + list(s.orelse)):
+                continue
+            return False
+        return True
+
     def coerce(self, name, have, want):
         if have == want:
             return name
@@ -259,6 +273,13 @@ class ImpR(Imp):
                 if tv != 'R':
                     raise Untranslatable('default of type %s' % tv)
                 return '%slet %s : %s := %s.getD %s\n' % (pad, x, self.lt('R'), x, v) + nxt(dict(env, **{x: 'R'}))
+            if not (_escapes(s.body) or _escapes(s.orelse)):
+                assigned0 = _assigned(list(s.body) + list(s.orelse))
+                live0 = _reads(rest) | set(self.spec.live) | getattr(self, 'outer_live', set())
+                if not [n_ for n_ in assigned0 if n_ in live0 or (loop is not None and n_ in env)] and self.only_logging(list(s.body) + list(s.orelse)):
+                    # nothing the rest of the function can observe: logging and scratch variables
+                    self.notes.append('a block without observable effect is skipped: `if %s: …`' % ast.unparse(s.test)[:60])
+                    return nxt(env)
             c, tc = self.expr(s.test, env)
             if tc != 'B':
                 raise Untranslatable('condition of type %s: %s' % (tc, ast.unparse(s.test)[:60]))
@@ -273,9 +294,7 @@ class ImpR(Imp):
             # (inside a loop body every state variable is read by the next iteration)
             names = [n_ for n_ in assigned if n_ in live or (loop is not None and n_ in env)]
             if not names:
-                # nothing the rest of the function can observe: logging and scratch variables
-                self.notes.append('a block without observable effect is skipped: `if %s: …`' % ast.unparse(s.test)[:60])
-                return nxt(env)
+                raise Untranslatable('conditional without effect: %s' % ast.unparse(s.test)[:60])
             # merged types after the conditional: a variable first bound inside is optional afterwards (none = not bound)
             pre = ''
             env0 = dict(env)
@@ -359,6 +378,10 @@ class RSpec(ImpSpec):
 SPECS = [
     RSpec('ixpeobssim.srcmodel.polarization', 'harmonic_addition', 'harmonic_addition', [('params', 'LT3')],
           note='C20: the accumulators of the harmonic addition theorem (flux, numerator and denominator of the phase, the double loop for the squared amplitude)'),
+    RSpec('ixpeobssim.evt.event', 'xEventFile.average_deadtime_per_event', 'average_deadtime_per_event', [('ONTIME', 'R'), ('LIVETIME', 'R'), ('num_events', 'R')],
+          bind={"self.primary_header.get('ONTIME')": 'ONTIME', "self.primary_header.get('LIVETIME')": 'LIVETIME', 'self.num_events()': 'num_events'},
+          skip_stmts=('min_delta_time = numpy.diff(self.time_data()).min()',),
+          note='C10: (ONTIME − LIVETIME) of the input header over the number of events of the input file'),
     RSpec('ixpeobssim.evt.subselect', 'xEventSelect.time_selected', 'time_selected', [('tmin', 'OR'), ('tmax', 'OR')],
           bind={"self.get('tmin')": 'tmin', "self.get('tmax')": 'tmax'}),
     RSpec('ixpeobssim.evt.subselect', 'xEventSelect.phase_selected', 'phase_selected', [('phasemin', 'OR'), ('phasemax', 'OR')],
